@@ -27,7 +27,7 @@ ENV = None
 
 
 def plan(tier, seed):
-    n = 48 if tier == "quick" else 1200
+    n = 480 if tier == "quick" else 4800
     return {"n_cases": n, "floors": {"evaluations": n // 2}}
 
 
